@@ -16,8 +16,8 @@ pub const SPECS: &[PropSpec] = &[
     PropSpec { id: "C05", level: "exploration", quick_runs: 60_000, thorough_runs: 1_500_000,
         rule: "seeded histories with deliberately invalid calls, executed in lock-step with the sequential reference model; after every call: outcome == model outcome, full observable state == model, 2 PRNG RangeBounds probes and accessors on a missing queue. Non-trivial: history has >=1 rejected/no-op call, >=1 truncate evicting part of a queue and >=1 range probe. Distinct: hash of (op kinds, size classes, outcomes, policy, max files).",
         assumptions: &["no fault involved: decided in the fault-free configuration of the simulator (restart op, deterministic hash order)"] },
-    PropSpec { id: "C06", level: "exploration", quick_runs: 40_000, thorough_runs: 1_000_000,
-        rule: "roll-over heavy seeded histories; after every truncate/delete_queue/open the SimFs directory listing and disk_used_bytes are compared with a bound computed from the write cursor (sum of wal_bytes_written) and the model's retained records. Non-trivial: an evaluation where the call removed >=1 of >=2 files or where an older file is legitimately kept. Distinct: history signature.",
+    PropSpec { id: "C06", level: "exploration", quick_runs: 20_000, thorough_runs: 600_000,
+        rule: "roll-over heavy seeded histories; after every truncate/delete_queue/open the SimFs directory listing and disk_used_bytes are compared with a bound computed from the write cursor (sum of wal_bytes_written) and the model's retained records. Every third history is additionally crashed at 16 sampled effect boundaries / torn writes (biased to roll-over and unlink effects, any policy); the recovered log must hold no file older than both the file recovery attributes its oldest retained record to (independent parser over the crash image) and the file recovery resumed writing in. Non-trivial: an evaluation where the call removed >=1 of >=2 files or where an older file is legitimately kept. Distinct: history signature.",
         assumptions: &["verdict on fault-free histories with clean restarts only (the statement quantifies over histories)", "record->file attribution = file holding the write cursor when the append began"] },
     PropSpec { id: "C15", level: "exploration", quick_runs: 60_000, thorough_runs: 1_500_000,
         rule: "seeded histories under all policies; per call (flush-per-call policies) or per flush point (others) the sum of wal_bytes_written is compared with the bytes of the Write effects on WAL files, and the running sum with the file-system write cursor. Non-trivial: history wrote padding, rolled over, or GC wrote position records. Distinct: history signature.",
@@ -130,6 +130,9 @@ pub fn run_hist(prop: &str, seed: u64, index: usize, _tier: Tier) -> RunReport {
         rep.found.push(Found { prop: prop.to_string(), clause: f.clause.clone(), detail: f.detail.clone(), case: c, fault: Fault::None });
         break;
     }
+    if prop == "C06" && d.conformance_ok() && rep.found.is_empty() && seed % 3 == 0 {
+        c06_crash_part(prop, seed, &case, &d, &mut rep);
+    }
     if (prop == "C01" || prop == "C17") && index % 400 == 0 {
         // SimFs fidelity: the same history with every fs call mirrored on the real file system
         let mism = crate::twin::validate(&case, seed);
@@ -180,6 +183,44 @@ fn c16_recovered(prop: &str, seed: u64, case: &Case, rep: &mut RunReport) {
         for f in ev.failures.iter().filter(|f| f.prop == prop) {
             if rep.found.is_empty() {
                 rep.found.push(Found { prop: prop.to_string(), clause: f.clause.clone(), detail: f.detail.clone(), case: case.clone(), fault: Fault::Damage { ops: ops.clone() } });
+            }
+        }
+    }
+}
+
+/// C06 on logs returned by crash recovery (any policy): sampled crash boundaries of the history.
+fn c06_crash_part(prop: &str, seed: u64, case: &Case, d: &Driver, rep: &mut RunReport) {
+    use crate::crash::{c06_after_recovery, enumerate_points, recover, ImageWalker};
+    let mut rng = crate::prng::Rng::new(crate::prng::mix(&[seed, 0xC06C]));
+    let mut pts = enumerate_points(d, false, &mut rng);
+    pts.retain(|p| p.byte.is_none() || rng.chance(1, 8));
+    // prefer boundaries around file creation (roll-over) and removal
+    let fs = d.world.fs.borrow();
+    let near_rollover = |p: &crate::crash::Point| -> bool {
+        (p.idx.saturating_sub(2)..(p.idx + 3).min(fs.trace.len())).any(|i| matches!(fs.trace[i].eff, crate::simfs::Eff::Create { .. } | crate::simfs::Eff::SetLen { .. } | crate::simfs::Eff::Unlink { .. }))
+    };
+    let (mut hot, mut cold): (Vec<_>, Vec<_>) = pts.into_iter().partition(|p| near_rollover(p));
+    rng.shuffle(&mut hot);
+    rng.shuffle(&mut cold);
+    hot.truncate(10);
+    cold.truncate(6);
+    hot.extend(cold);
+    hot.sort_by_key(|p| (p.idx, p.byte));
+    let mut walker = ImageWalker::new(&fs.trace, &fs.bases[0].1);
+    for p in &hot {
+        let image = walker.image_at(p.idx, p.byte);
+        let policy = if p.b < d.steps.len() { d.steps[p.b].policy } else { case.policy };
+        rep.evaluations += 1;
+        rep.count("fault_process_crash", 1);
+        if let Ok((w, obs)) = recover(&image, &d.names, policy, &case.knobs) {
+            rep.count("recovered_logs_checked_after_crash", 1);
+            if let Some(msg) = c06_after_recovery(&w, &obs, &image) {
+                if rep.found.is_empty() {
+                    rep.found.push(Found {
+                        prop: prop.to_string(), clause: "file-not-reclaimed-after-crash".to_string(), detail: msg, case: case.clone(),
+                        fault: Fault::Crash { at: crate::fault::CrashPoint { op: p.b.min(d.steps.len()), eff_in_op: p.eff_in_op, byte: p.byte, powerloss: None }, second: None, cont: vec![] },
+                    });
+                }
             }
         }
     }
